@@ -44,7 +44,7 @@ theorem api_calls_authorized :
 /-- Does the tree under check contain the repair `fixes/C31-website-error-document-authz.patch`
 (the website endpoints ask the authorizer about the error document before reading it)?
 Flip to `true` when that patch is committed to /repo: the theorem below then IS the full statement. -/
-def errorDocumentRepaired : Bool := false
+def errorDocumentRepaired : Bool := true
 
 /-- The full statement: on every mux, every storage call that reads object data or changes state
 comes after a successful authorize call under a covering operation name, for the same bucket, key
@@ -175,7 +175,7 @@ example : (groupKeys.map (fun k => (groupAtoms (groupOf k)).length)).foldl max 0
 /-- Does the tree under check contain the repair `fixes/C31-list-object-versions-item-hook.patch`
 (`GET ?versions` filters keys and common prefixes through the listObject hook)? Flip to `true` when
 that patch is committed to /repo. -/
-def versionsHookRepaired : Bool := false
+def versionsHookRepaired : Bool := true
 
 /-- The full statement: every route that lists buckets, objects, object versions, multipart uploads
 or parts, or bulk-deletes, consults the per-item hook responsible for what it returns. -/
